@@ -56,7 +56,7 @@ def run_case(case, tail="steps"):
     if case.get("tail", tail) == "fair":
         pol = A.fair_stop_policy()
     else:
-        pol = A.steps_policy(400)
+        pol = A.steps_policy(4000)      # (the unchanged tree needs at most ~120: the budget only stops a master that never exits)
     try:
         w.run([tuple(x) for x in case["script"]], policy=pol)
         w.final_pid_files = w.pid_files()
@@ -375,20 +375,27 @@ LATE = 1.5         # seconds after the signal at which the client sends what it 
 KEEPALIVE = 8
 
 
-def scenario(cls, phase, app, sig, graceful=4, bind="unix", saturated=False):
+def scenario(cls, phase, app, sig, graceful=4, bind="unix", saturated=False, timeout=None):
     """app: 'finish' (needs 1.2 s), 'overrun' (graceful + 3 s), 'never' (60 s); saturated: worker_connections = 1 and one more
-    client waiting for a slot when the signal arrives (gevent / eventlet: the acceptor is inside pool.spawn, not in accept)"""
+    client waiting for a slot when the signal arrives (gevent / eventlet: the acceptor is inside pool.spawn, not in accept);
+    timeout: the worker `timeout` setting when it is to be SHORTER than the request and than graceful_timeout (a worker class
+    whose requests do not block the heartbeat - gthread, gevent, eventlet - serves such a request in normal operation, and the
+    property promises its answer during a graceful shutdown as well: the application then needs timeout + 1.4 s)"""
     d = {"finish": 2.6, "overrun": graceful + 3.0, "never": 60.0}[app]
+    if timeout is not None and app == "finish":
+        d = timeout + 1.4
     scn = {"cls": cls, "phase": phase, "app": app, "d": d, "sig": sig, "graceful": graceful, "bind": bind}
     if saturated:
         scn["saturated"] = True
+    if timeout is not None:
+        scn["timeout"] = timeout
     return scn
 
 
 def real_case(scn):
     """-> observation dict"""
     srv = R.Server(worker_class=scn["cls"], workers=1, graceful=scn["graceful"], bind=scn["bind"], keepalive=KEEPALIVE,
-                   extra=({"worker_connections": 1} if scn.get("saturated") else None))
+                   timeout=scn.get("timeout", 30), extra=({"worker_connections": 1} if scn.get("saturated") else None))
     obs = {"scn": scn}
     extra_client = None
     try:
@@ -556,6 +563,8 @@ def real_scenarios(ctx):
         scns = [scenario(c, p, a, s, graceful=4, bind=("unix" if i % 4 else "tcp")) for i, (c, p, a, s) in enumerate(QUICK_REAL)]
         scns.append(scenario("eventlet", "app", "finish", "TERM", graceful=4, bind="unix", saturated=True))
         scns.append(scenario("gevent", "app", "finish", "TERM", graceful=4, bind="tcp", saturated=True))
+        scns.append(scenario("gthread", "app", "finish", "TERM", graceful=6, bind="unix", timeout=2))
+        scns.append(scenario("eventlet", "app", "finish", "TERM", graceful=6, bind="tcp", timeout=2))
         # two more, chosen by the seed
         for _ in range(2):
             scns.append(scenario(ctx.rng.choice(list(CLS_COQ)), ctx.rng.choice(list(PHASE_COQ)), ctx.rng.choice(["finish", "finish", "overrun"]),
@@ -574,6 +583,9 @@ def real_scenarios(ctx):
     for c in ("gevent", "eventlet", "gthread"):
         for s in ("TERM", "QUIT"):
             scns.append(scenario(c, "app", "finish", s, graceful=4, bind="unix", saturated=True))
+    for c in ("gevent", "eventlet", "gthread"):
+        for p in ("app", "resp"):
+            scns.append(scenario(c, p, "finish", "TERM", graceful=6, bind="unix", timeout=2))
     return scns
 
 
